@@ -460,7 +460,7 @@ def run(chk, args):
         cases = [expand(f["replay"]["case"]) for f in items if "case" in f.get("replay", {})]
         cases = [c for c in cases if c.get("mode") != "compress" or isinstance(c.get("targets"), list)]
     else:
-        n = 1400 if not thorough else 12000
+        n = 1400 if not thorough else 8000
         n = int(os.environ.get("C12_CASES", n))            # (for trying the pipeline out on a loaded machine)
         cases = []
         for i in range(n):
